@@ -130,6 +130,29 @@ def optHex : Option Bytes → String
   | none => "none"
   | some b => showHex b
 
+/-- constructor name of a phase (instrumentation only: which parts of the model the correspondence runs reach) -/
+def phaseName : Phase → String
+  | .banner _ => "banner" | .numSecTypes => "numSecTypes" | .secTypes _ => "secTypes" | .auth33 => "auth33"
+  | .connFailed => "connFailed" | .connMessage _ => "connMessage" | .vncAuth => "vncAuth" | .dhAuth => "dhAuth"
+  | .dhKey => "dhKey" | .dhCert => "dhCert" | .authResult => "authResult" | .authFailedLen => "authFailedLen"
+  | .authFailedMsg _ => "authFailedMsg" | .serverInit => "serverInit" | .serverName _ => "serverName"
+  | .connection => "connection" | .fbUpdate => "fbUpdate" | .rectangle => "rectangle" | .raw .. => "raw"
+  | .copyrect .. => "copyrect" | .rre .. => "rre" | .rreSubs .. => "rreSubs" | .corre .. => "corre"
+  | .correSubs .. => "correSubs" | .hextile .. => "hextile" | .hextileRaw .. => "hextileRaw"
+  | .hextileSub .. => "hextileSub" | .hextileColoured .. => "hextileColoured" | .hextileFG .. => "hextileFG"
+  | .zrle .. => "zrle" | .zrleData .. => "zrleData" | .cursor .. => "cursor" | .colourMap => "colourMap"
+  | .colourMapVals .. => "colourMapVals" | .cutText => "cutText" | .cutTextVal .. => "cutTextVal" | .dead => "dead"
+
+/-- the phases in which a handler is invoked while `chunk` is fed (the same loop as `drain`, observing only) -/
+def phasesVisited : Nat → RSt → Bytes → List String → List String
+  | 0, _, _, acc => acc
+  | fuel+1, s, buf, acc =>
+    if rfbMachine.blocked s buf then acc
+    else
+      let r := rfbMachine.step s (buf.take (rfbMachine.need s))
+      let n := phaseName s.ph
+      phasesVisited fuel r.1 (buf.drop (rfbMachine.need s)) (if acc.contains n then acc else n :: acc)
+
 def outTok : Out → String
   | .write b => "w:" ++ showHex b
   | .close => "close"
@@ -160,6 +183,7 @@ structure Drv where
   uppers : List Word := []
   exit : ExitSt := {}
   up : Bool := true
+  cov : List String := []
   px : Option (St PSt) := none
   rcd : RecSt := { last := 0 }
   now : Nat := 0
@@ -271,6 +295,7 @@ def doRfbRecv (d : Drv) (args : List String) : Drv × String :=
   | some st, [h] =>
     match bytesOfHex h with
     | some chunk =>
+      let d := { d with cov := phasesVisited (feedFuel st chunk) st.s (st.buf ++ chunk) d.cov }
       match d.app with
       | some a =>
         -- an application is attached: the whole client is ONE machine (VncModel/System.lean); this is the object of
@@ -579,6 +604,7 @@ def handleSt (d : Drv) (line : String) : Drv × String :=
     match d.app, t.toNat? with
     | some a, some t => ({ d with app := some { a with now := t } }, "ok")
     | _, _ => (d, "bad-op")
+  | ["rfb-cov"] => (d, "ok " ++ " ".intercalate d.cov)
   | ["rfb-screen"] => (d, screenTok d.cv)
   | ["cv-new", nc, m] =>
     match parseBool? nc, strOfHex m with
